@@ -1475,3 +1475,52 @@ lemma(
     ghost_args={},
     note="axis-aligned fit and view (the rotated case goes through decompose_rws: bounded, C20)",
 )
+
+
+# ---- derived GeoBoxes never inherit the receiver's lazily cached footprint ------------------------------------------------------------
+
+
+class _CachedFootprint:
+    """sentinel standing for a footprint polygon the receiver computed earlier (GeoBox.extent caches it in _extent)"""
+
+
+_VIEW_OPS = {
+    "zoom_out(2)": lambda g: g.zoom_out(2),
+    "zoom_out(1.5)": lambda g: g.zoom_out(1.5),
+    "zoom_to(shape)": lambda g: g.zoom_to((3, 5)),
+    "zoom_to(int)": lambda g: g.zoom_to(7),
+    "[1:, :-1]": lambda g: g[1:, :-1],
+    "[:, :]": lambda g: g[:, :],
+    "pad(2)": lambda g: g.pad(2),
+    "pad_wh(4)": lambda g: g.pad_wh(4),
+    "flipx": lambda g: g.flipx(),
+    "flipy": lambda g: g.flipy(),
+    "translate_pix": lambda g: g.translate_pix(3, -2),
+    "left": lambda g: g.left,
+    "bottom": lambda g: g.bottom,
+    "rotate": lambda g: g.rotate(30),
+    "center_pixel": lambda g: g.center_pixel,
+    "g * A": lambda g: g * repo("affine").Affine.translation(1, 2),
+    "A * g": lambda g: repo("affine").Affine.translation(1, 2) * g,
+    "scaled_down_geobox": lambda g: repo(GBX).scaled_down_geobox(g, 2),
+    "crop": lambda g: g.crop((2, 2)),
+}
+
+
+def _lemma_views_fresh_cache(g, op):
+    stale = _CachedFootprint()
+    g._extent = stale  # the receiver's footprint was looked at before
+    out = _VIEW_OPS[op](g)
+    claim(type(out).__name__ == "GeoBox", "a GeoBox comes back")
+    claim(out is g or out._extent is not stale, "the derived GeoBox does not carry the receiver's cached footprint (its own footprint is computed from its own shape and affine)")
+    claim(g._extent is stale, "the receiver keeps its own cache")
+
+
+lemma(
+    "geobox.views_do_not_inherit_cached_footprint",
+    ["C02"],
+    inputs=dict(g=GEOBOX(min_side=4), op=OneOf(*_VIEW_OPS)),
+    body=_lemma_views_fresh_cache,
+    unstub=[f"{GBX}:GeoBox.zoom_out", f"{GBX}:GeoBox.zoom_to", f"{GBX}:GeoBox.__getitem__", f"{GBX}:GeoBox.pad", f"{GBX}:GeoBox.pad_wh", f"{GBX}:GeoBox.flipx", f"{GBX}:GeoBox.flipy", f"{GBX}:GeoBox.translate_pix", f"{GBX}:GeoBox.__mul__", f"{GBX}:GeoBox.__rmul__", f"{GBX}:scaled_down_geobox", f"{GBX}:GeoBox.crop", f"{GBX}:GeoBox.left", f"{GBX}:GeoBox.right", f"{GBX}:GeoBox.top", f"{GBX}:GeoBox.bottom"],
+    note="every view-changing operation on a receiver whose footprint is already cached (symbolic grid): state / history independence of the derived object's footprint",
+)
